@@ -665,6 +665,11 @@ def fwd_position(m: Model, d: Data, factorize: bool = True):
     else:
       collision_driver.collision(m, d)
 
+  # connect and weld rows need Jdot*qvel: bring cvel and cdof_dot up to date with the current state
+  # (they are otherwise left over from the previous step until fwd_velocity runs)
+  if m.eq_connect_adr.size + m.eq_wld_adr.size > 0:
+    smooth.com_vel(m, d)
+
   constraint.make_constraint(m, d)
 
   if sleep_enabled:
